@@ -326,4 +326,88 @@ Section Proofs.
   Lemma loop_catches_everything (e : exn_class) : catches loop_catches e = true.
   Proof. destruct e; reflexivity. Qed.
 
+  (* ------------------------------------------------------------------ the timer loops and whole runs *)
+  Hypothesis cid_rt : forall s now, cid (fst (sa_check_retransmission C s now)) = cid s.
+  Hypothesis cid_dpd : forall s now, cid (fst (sa_check_dpd C s now)) = cid s.
+  Hypothesis cid_life : forall s now, cid (fst (sa_check_lifetime C s now)) = cid s.
+
+  Lemma map_loop_cids f t now :
+    (forall s n, cid (fst (f s n)) = cid s) -> cids (fst (map_loop C f t now)) = cids t.
+  Proof.
+    intros Hf. induction t as [|s r IH]; [reflexivity|]. cbn [map_loop].
+    pose proof (Hf s now) as Hc. destruct (f s now) as [s1 o]. cbn [fst] in Hc.
+    destruct (map_loop C f r now) as [r1 os]. cbn [fst] in *. unfold cids in *. cbn [map]. rewrite Hc, IH. reflexivity.
+  Qed.
+
+  Lemma rt_loop_cids fuel : forall i t now out del,
+    NoDup (cids t) ->
+    NoDup (cids (fst (fst (rt_loop C fuel i t now out del)))) /\
+    (forall c, In c (cids (fst (fst (rt_loop C fuel i t now out del)))) -> In c (cids t)).
+  Proof.
+    induction fuel as [|fuel IH]; intros i t now out del Hnd; [cbn; auto|].
+    cbn [rt_loop]. destruct (nth_error t i) as [s|]; [|cbn; auto].
+    pose proof (cid_rt s now) as Hc. destruct (sa_check_retransmission C s now) as [s1 o]. cbn [fst] in Hc.
+    assert (Hr : NoDup (cids (replace C t s1))) by (rewrite replace_cids; exact Hnd).
+    destruct (dispatch_remove (sa_state C s1)).
+    - destruct (remove_cids_nodup _ (cid s1) Hr) as [Hnd2 _].
+      destruct (IH (S i) (remove_cid C (replace C t s1) (cid s1)) now
+                   (match o with Some d => out ++ [d] | None => out end) (del ++ sa_kernel_keys C s1) Hnd2) as [A Bq].
+      split; [exact A|]. intros c Hin. apply Bq in Hin. apply remove_subset in Hin. rewrite replace_cids in Hin. exact Hin.
+    - destruct (IH (S i) (replace C t s1) now (match o with Some d => out ++ [d] | None => out end) del Hr) as [A Bq].
+      split; [exact A|]. intros c Hin. apply Bq in Hin. rewrite replace_cids in Hin. exact Hin.
+  Qed.
+
+  (** the three timer loops keep the table duplicate-free and never add an entry *)
+  Lemma timers_table t now :
+    NoDup (cids t) ->
+    NoDup (cids (fst (fst (timers C t now)))) /\
+    (forall c, In c (cids (fst (fst (timers C t now)))) -> In c (cids t)).
+  Proof.
+    intros Hnd. unfold timers.
+    destruct (rt_loop_cids (S (length t)) 0 t now [] [] Hnd) as [A Bq].
+    destruct (rt_loop C (S (length t)) 0 t now [] []) as [[t1 o1] del]. cbn [fst] in A, Bq.
+    pose proof (map_loop_cids (sa_check_dpd C) t1 now cid_dpd) as H2.
+    destruct (map_loop C (sa_check_dpd C) t1 now) as [t2 o2]. cbn [fst] in H2.
+    pose proof (map_loop_cids (sa_check_lifetime C) t2 now cid_life) as H3.
+    destruct (map_loop C (sa_check_lifetime C) t2 now) as [t3 o3]. cbn [fst] in *.
+    rewrite H3, H2. split; assumption.
+  Qed.
+
+  (** what the event loop does to the table, one event after the other *)
+  Inductive cevent :=
+  | CDatagram (hp : hparse) (mk : newsa C) (data : D)
+  | CTimers (now : Z).
+
+  Definition cstep (t : table C) (e : cevent) : table C :=
+    match e with
+    | CDatagram hp mk data => dr_table C (dispatch C t hp mk data)
+    | CTimers now => fst (fst (timers C t now))
+    end.
+
+  (** object identity: an IkeSa object created while handling an event is not one already in the table *)
+  Definition fresh_for (t : table C) (e : cevent) : Prop :=
+    match e with
+    | CDatagram hp mk data =>
+        (forall s0, mk = Fresh C s0 -> ~ In (cid s0) (cids t)) /\
+        (forall s d s2 r n, sa_process C s d = PDone s2 r -> sa_successor C s2 = Some n ->
+                            ~ In (cid n) (cids t) /\ (forall s0, mk = Fresh C s0 -> cid n <> cid s0))
+    | CTimers _ => True
+    end.
+
+  Fixpoint fresh_run (t : table C) (es : list cevent) : Prop :=
+    match es with
+    | [] => True
+    | e :: r => fresh_for t e /\ fresh_run (cstep t e) r
+    end.
+
+  Lemma run_table_nodup (es : list cevent) : forall t,
+    NoDup (cids t) -> fresh_run t es -> NoDup (cids (fold_left cstep es t)).
+  Proof.
+    induction es as [|e r IH]; intros t Hnd Hf; [exact Hnd|].
+    cbn [fold_left]. destruct Hf as [Hfe Hfr]. apply IH; [|exact Hfr].
+    destruct e as [hp mk data|now]; cbn [cstep].
+    - destruct Hfe as [Hf1 Hf2]. apply (dispatch_table_step t hp mk data Hnd Hf1 Hf2).
+    - apply (timers_table t now Hnd).
+  Qed.
+
 End Proofs.
